@@ -193,7 +193,7 @@ def generic_options_only(data):
     while i + 4 <= len(data):
         ot, ol = struct.unpack("!HH", data[i:i + 4])
         try:
-            if dns.edns.get_option_class(dns.edns.OptionType.make(ot)) is not dns.edns.GenericOption:
+            if ot not in (3, 8, 10, 15, 18) and dns.edns.get_option_class(dns.edns.OptionType.make(ot)) is not dns.edns.GenericOption:
                 return False
         except Exception:  # noqa
             return False
@@ -393,9 +393,25 @@ def gen_modelled_rdata(rng, rdtype, base_len):
         return out
     if rdtype == 41:
         out = b""
-        for _ in range(rng.choice([0, 1, 2])):
-            v = bytes(rng.randrange(256) for _ in range(rng.choice([0, 1, 4, 9])))
-            out += struct.pack("!HH", rng.choice([65001, 4, 100, 65534]), len(v)) + v
+        for _ in range(rng.choice([0, 1, 2, 3])):
+            ot = rng.choice([65001, 4, 100, 3, 8, 8, 8, 10, 10, 15, 15, 18])
+            if ot == 8:
+                fam = rng.choice([1, 1, 2, 2, 0, 3])
+                src = rng.choice([0, 1, 8, 24, 25, 32, 33, 40, 56, 128, 129, 255])
+                nb = (src + 7) // 8
+                v = struct.pack("!HBB", fam, src, rng.choice([0, 0, src, 32, 33, 128, 129])) + \
+                    bytes(rng.randrange(256) for _ in range(rng.choice([nb, nb, nb, nb + 1, max(0, nb - 1)])))
+            elif ot == 10:
+                v = bytes(rng.randrange(256) for _ in range(rng.choice([8, 8, 16, 24, 40, 41, 15, 7, 0, 12])))
+            elif ot == 15:
+                txt = rng.choice([b"", b"stale", b"x\x00", b"\x00\x00", "caf\u00e9".encode(), b"\xc3", b"\xe2\x82\xac", b"\xed\xa0\x80", b"\xf0\x9f\x98\x80",
+                                  b"\xc0\xaf", b"\xf4\x90\x80\x80", b"\xe0\x80\x80", b"ok\xff", b"\xf0\x90\x80", b"a\x00b\x00"])
+                v = struct.pack("!H", rng.choice([0, 3, 24, 65535])) + txt if rng.random() < 0.9 else bytes(rng.choice([0, 1]))
+            elif ot == 18:
+                v = gen_wire_name(rng, base_len) if rng.random() < 0.8 else b"\x03abc"
+            else:
+                v = bytes(rng.randrange(256) for _ in range(rng.choice([0, 1, 4, 9])))
+            out += struct.pack("!HH", ot, len(v) if rng.random() < 0.93 else rng.choice([0, len(v) + 1, max(0, len(v) - 1)])) + v
         return out
     if rdtype == 250:
         mac = bytes(rng.randrange(256) for _ in range(rng.choice([0, 16, 32])))
